@@ -485,3 +485,38 @@ func TestC14_TTLMapModel(t *testing.T) {
 		vstat.Case(fmt.Sprintf("ttl|%d|%v|%v", capacity, phase, log), fullInsert > 0, []string{"ttlmap-model"}, map[string]any{"capacity": capacity, "ops": log, "inserts_at_full_capacity": fullInsert})
 	})
 }
+
+// TestC14_BelowCapacity: a large table filled to (just below) its configured capacity with
+// sources whose names are random, or long and differing only in their last bytes. Every source
+// spends its whole burst once; nobody's first request may be refused (it would have to be because
+// of another source) and nobody may get a second burst (it would have to be forgotten although
+// the table has room).
+func TestC14_BelowCapacity(t *testing.T) {
+	rapid.Check(t, func(t *rapid.T) {
+		capacity := rapid.SampledFrom([]int{512, 513, 600, 1024, 1500, 2048, 4096}).Draw(t, "capacity")
+		n := capacity - rapid.IntRange(0, 8).Draw(t, "spare")
+		burst := int64(rapid.IntRange(1, 3).Draw(t, "burst"))
+		rs, _ := gen.RateSet([]gen.Rate{{Period: time.Hour, Average: 1, Burst: burst}})
+		clock.Freeze(epoch)
+		defer clock.Unfreeze()
+		tl, sv := newLimiter(t, rs, capacity)
+		prefix := rapid.SampledFrom([]string{"", "client-", strings.Repeat("x", 127), strings.Repeat("Bearer.eyJhbGciOi", 12)}).Draw(t, "namePrefix")
+		salt := rapid.StringMatching(`[a-z0-9]{0,6}`).Draw(t, "salt")
+		name := func(i int) string { return prefix + salt + strconv.Itoa(i*7919%100003) }
+		for i := 0; i < n; i++ {
+			if got := ask(t, tl, sv, name(i), burst); !strings.HasPrefix(got, "200/") {
+				t.Fatalf("capacity %d: the first request of source #%d (%q, whole burst %d) was answered %s: it can only have been refused because of another source", capacity, i, name(i), burst, got)
+			}
+			if i%64 == 0 {
+				clock.Advance(time.Millisecond)
+			}
+		}
+		clock.Advance(time.Second)
+		for i := 0; i < n; i++ {
+			if got := ask(t, tl, sv, name(i), 1); strings.HasPrefix(got, "200/") {
+				t.Fatalf("capacity %d, %d sources (names %q...): source #%d had spent its whole burst a second ago and was admitted again: it was forgotten although the table has room", capacity, n, name(0), i)
+			}
+		}
+		vstat.Case(fmt.Sprintf("below|%d|%d|%d|%s%s", capacity, n, burst, prefix, salt), true, []string{"table-filled-to-capacity"}, map[string]any{"capacity": capacity, "sources": n, "name0": name(0)})
+	})
+}
